@@ -182,6 +182,8 @@ def layer_string_templates(ctx, n):
         root = g.element(0, False)
         c01.tal_block_fix(root)
         lead = rng.choice(['', '\n', 'é日\n  ', '<!-- c -->\n\t',
+                           # CRLF / CR line endings (HTML mode reads them as LF: positions refer to that text)
+                           '<!-- c -->\r\n\t<i>t</i>\r\n  ', 'x\r  ', 'a\r\nb\rc\n ',
                            # expression tokens spanning several lines BEFORE the failing one
                            '<i tal:define="zq (1,\n   2,\n 3)" tal:attributes="a {\'k\':\n 1}">m</i>\n  ',
                            '<?python\nzp = [1,\n  2]\nzr = 3\n?>\n <i tal:content="zp[0] +\n zr">m</i> '])
@@ -209,8 +211,9 @@ def layer_string_templates(ctx, n):
                         raise MAKERS[clsname]()
                     return tmodel.build_value(table[x], real=True)
                 needle = 'f(%d)' % rid
-                off = src.index(needle)
-                want = [(needle, '<string>') + line_col(src, off)]
+                nsrc = src.replace('\r\n', '\n').replace('\r', '\n')
+                off = nsrc.index(needle)
+                want = [(needle, '<string>') + line_col(nsrc, off)]
                 what = 'template %r, %s raised by %s (site %s)' % (src, clsname, needle, g.sites[rid])
                 replay = {'kind': 'string', 'src': src, 'rid': rid, 'cls': clsname}
                 ctx.case(key=('string', g.sites[rid], clsname, bool(lead), c01.stmt_shape(root)), nontrivial=True,
